@@ -389,8 +389,10 @@ Definition wf_table (T : table) : bool :=
   && ftype_is TBool (lookup f sch)
   && ftype_is TInt (lookup g sch)
   && negb (String.eqb f mode_key) && negb (mem_str f (rule_fields T)) && negb (mem_str mode_key (rule_fields T))
+  && negb (String.eqb (t_mode_dflt T) EmptyString)
   && nodup_str (map fst sch) && nodup_str (map fst (t_defaults T))
-  && forallb (fun k => mem_str k (map fst sch)) (map fst (t_defaults T)).
+  && forallb (fun k => mem_str k (map fst sch)) (map fst (t_defaults T))
+  && forallb (fun k => mem_str k (map fst (t_defaults T))) (fixed ++ srcs ++ dsts).
 
 (* ------------------------------------------------------------------ *)
 (* slots                                                               *)
